@@ -28,7 +28,7 @@ import re
 from harness.common import VERIF, Ctx, parallel_workers
 
 NSLOT, NGOV = 4, 3
-ADDITIVE = {"put", "ingest", "assoc", "cert", "insdim", "expand"}
+ADDITIVE = {"put", "ingest", "assoc", "cert", "insdim", "expand", "transfer"}
 REMOVAL = {"purge", "unstore", "emptytrash"}
 HDR = ("From Coq Require Import NArith List Bool.\nFrom V Require Import Model.Txn Model.TxnCheck.\n"
        "Import ListNotations.\nOpen Scope N_scope.\n")
@@ -49,6 +49,7 @@ class Spec:
     def __init__(self):
         self.ds, self.tags, self.certs, self.dims = set(), set(), set(), set()
         self.files, self.ext, self.pending = {}, {d: 100 + d for d in range(NSLOT)}, set()
+        self.xf = set()          # slots whose registered dataset came from the source repository (same dataset id there)
 
     def key(self):
         return (tuple(sorted(self.ds)), tuple(sorted(self.tags)), tuple(sorted(self.certs)), tuple(sorted(self.dims)),
@@ -71,6 +72,16 @@ class Spec:
             self.files[d] = self.ext[d]
             if mode == "move":
                 del self.ext[d]
+        elif n == "transfer":
+            # documented: datasets already present (same id) are skipped, an artifact is only copied when the target has
+            # none recorded; the same data ID under another id is a conflict
+            d = a[0]
+            if d in self.ds and d not in self.xf:
+                raise SFail()
+            self.ds.add(d)
+            self.xf.add(d)
+            if d not in self.files:
+                self.files[d] = 200 + d
         elif n == "assoc":
             if a[0] not in self.ds:
                 raise SFail()
@@ -95,6 +106,7 @@ class Spec:
             if d not in self.ds:
                 raise SFail()
             self.ds.discard(d)
+            self.xf.discard(d)
             self.tags.discard(d)
             self.certs.discard(d)
             self.files.pop(d, None)
@@ -178,6 +190,7 @@ def _spec_run(s, p, cnt, hard, used, variant=0):
                 d = op[1]
                 if op[0] == "purge":
                     s.ds.discard(d)
+                    s.xf.discard(d)
                     s.tags.discard(d)
                     s.certs.discard(d)
                 used[0] = 2
@@ -394,7 +407,7 @@ def cprog(p):
         if n == "ingest":
             return f"POp (Ingest {'Copy' if a[0] == 'copy' else 'Move'} {a[1]})"
         nm = {"assoc": "Assoc", "untag": "Untag", "cert": "Cert", "insdim": "InsDim", "expand": "Expand", "purge": "Purge",
-              "unstore": "Unstore"}
+              "unstore": "Unstore", "transfer": "Transfer"}
         if n == "emptytrash":
             return "POp EmptyTrash"
         return f"POp ({nm[n]} {a[0]})"
